@@ -142,7 +142,15 @@ impl<P: Package, VS: VersionSet, M: Eq + Clone + Debug + Display> Incompatibilit
     pub(crate) fn from_dependency(package: P, versions: VS, dep: (P, VS)) -> Self {
         let (p2, set2) = dep;
         Self {
-            package_terms: if set2 == VS::empty() {
+            package_terms: if p2 == package {
+                // A dependency on the package itself forbids exactly the versions outside of the
+                // required set. Both terms concern the same package, so they are a single term
+                // (a map with the same key twice would hide one of them).
+                SmallMap::One([(
+                    package.clone(),
+                    Term::Positive(versions.intersection(&set2.complement())),
+                )])
+            } else if set2 == VS::empty() {
                 SmallMap::One([(package.clone(), Term::Positive(versions.clone()))])
             } else {
                 SmallMap::Two([
@@ -156,7 +164,8 @@ impl<P: Package, VS: VersionSet, M: Eq + Clone + Debug + Display> Incompatibilit
 
     pub(crate) fn as_dependency(&self) -> Option<(&P, &P)> {
         match &self.kind {
-            Kind::FromDependencyOf(p1, _, p2, _) => Some((p1, p2)),
+            // A self-dependency has a single term, it cannot be merged like the other dependencies.
+            Kind::FromDependencyOf(p1, _, p2, _) if p1 != p2 => Some((p1, p2)),
             _ => None,
         }
     }
